@@ -252,6 +252,15 @@ def check(ctx):
         # the dependency sets keep the old names
         if find("layer_dependencies[new_layer_name] = self.dependencies[layer_name]", hc) and find("layer_dependencies[layer_name] & ret_layers_keys", hc):
             ctx.note("HighLevelGraph.cull intersects old-name dependency sets with new-name layer keys: layer dependencies of the culled graph are empty (values unaffected; outside the letter of C10)")
+    # ---------------- fused sub-tasks are named after the dependency and its index ORDER
+    ud = bw.func("_unique_dep") if "bw" in dir() else ctx.model.module("dask/blockwise.py").func("_unique_dep")
+    ok = any(unparse(r.value) == "dep + '_' + '_'.join((str(i) for i in list(ind)))" for r in returns(ud))
+    ctx.ob("INJ.unique-dep", ud, "_unique_dep(dep, ind) = dep + '_' + the indices joined IN ORDER", ok, "" if ok else "an order-destroying operation (sorted/set) is applied: the same input read as 'ij' and as 'ji' collapses onto one key when layers are fused")
+    # ---------------- Layer.cull shortcut: when nothing is culled the dependencies of EVERY key of the layer are reported
+    lcu2 = ctx.model.klass("dask/highlevelgraph.py", "Layer").own_methods["cull"]
+    sc = [n for n in ast.walk(lcu2) if isinstance(n, ast.DictComp) and "self.get_dependencies(k, all_hlg_keys)" in unparse(n.value)]
+    ok = len(sc) >= 1 and all(unparse(n.generators[0].iter) in ("self.keys()", "self") and not n.generators[0].ifs for n in sc[:1])
+    ctx.ob("REACH.layer-cull.all-keys-shortcut", lcu2, "len(keys) == len(self): dependencies are reported for k in self.keys()", ok, "" if ok else "only requested keys that live in the layer are reported: helper keys kept by the layer lose their external dependencies and the upstream layer is culled too far")
 
 
 VARIANTS = [
